@@ -384,6 +384,12 @@ Section SelectLemmas.
         symmetry. apply last_cons_default.
   Qed.
 
+  Lemma filter_len_le (f : nat -> bool) (S : list nat) : length (filter f S) <= length S.
+  Proof.
+    induction S as [|k S IH]; [reflexivity|]. cbn [filter].
+    destruct (f k); cbn [length]; lia.
+  Qed.
+
   Lemma select_length_le2 flags : forall l u v,
     (forall k, k <> u -> k <> v -> fl flags k = true) ->
     length (select flags l) <= 2.
@@ -413,12 +419,12 @@ Section SelectLemmas.
           by (unfold S'; apply map_length).
         specialize (IH t S' HS' Hnd').
         destruct b; cbn [select length].
-        + pose proof (filter_length_le (fun k => negb (k =? 0)) S). lia.
+        + pose proof (filter_len_le (fun k => negb (k =? 0)) S). lia.
         + assert (H0 : In 0 S) by (apply HS; reflexivity).
           assert (Hlt : length (filter (fun k => negb (k =? 0)) S) < length S).
           { clear - H0. induction S as [|k S IHS]; [contradiction|].
             cbn [filter]. destruct (Nat.eqb_spec k 0) as [->|Hk0]; cbn [negb length].
-            - pose proof (filter_length_le (fun k => negb (k =? 0)) S). lia.
+            - pose proof (filter_len_le (fun k => negb (k =? 0)) S). lia.
             - destruct H0 as [|H0]; [congruence|]. specialize (IHS H0). lia. }
           lia. }
     intros l u v H.
@@ -573,7 +579,8 @@ Section Proofs.
     r_nx : fl (upd flags x true) nx = false;
     r_gbn : gap (upd flags x true) b nx;
     r_why : exists dx, nth_error dsq x = Some dx /\
-                       (gtb dx eps2 = false \/ exists d, ltb dx d = true);
+                       (gtb dx eps2 = false \/
+                        exists k d, nth_error dsq k = Some d /\ ltb dx d = true);
     r_dsq : exists Pa Pb Pp2 Pnx,
         nth_error path a = Some Pa /\ nth_error path b = Some Pb /\
         nth_error path p2 = Some Pp2 /\ nth_error path nx = Some Pnx /\
@@ -619,7 +626,8 @@ Section Proofs.
     fl flags p2 = false -> a <> x -> b <> x -> a <> b ->
     gap flags a x -> gap flags x b -> gap flags p2 a ->
     (exists dx, nth_error dsq x = Some dx /\
-                (gtb dx eps2 = false \/ exists d, ltb dx d = true)) ->
+                (gtb dx eps2 = false \/
+                 exists k d, nth_error dsq k = Some d /\ ltb dx d = true)) ->
     exists nx dsq',
       tail path c high flags dsq x a b p2 = Some (Continue (upd flags x true) dsq' b) /\
       removal path c high flags dsq x a b p2 nx dsq'.
@@ -703,7 +711,7 @@ Section Proofs.
       destruct (tail_spec path c high flags dsq next c1 n2 prev Hfl Hdl Hpl
                   Hnext Hc1 Hn2 Hprev ltac:(congruence) Hn2n Hn2c Hgn Hgn2 Hgp)
         as (nx & dsq' & Et & HR).
-      { exists dn. split; [assumption|]. right. exists d1. assumption. }
+      { exists dn. split; [assumption|]. right. exists c1, d1. auto. }
       exists next, c1, n2, prev, nx, dsq'. split; [exact Et|exact HR].
     - (* curr is removed *)
       destruct (getPrior_spec flags high prev Hfl ltac:(lia) (ex_intro _ c1 Hc1))
@@ -974,53 +982,382 @@ Section Proofs.
   Qed.
 
   Section OpenEnds.
-  (* for open paths: the end points are unflagged and their dsq is dmax *)
+  Variable path : list P.
+
+  (* epsSq < MaxFloat64; no distance computed from points of the path, nor
+     MaxFloat64 itself, is greater than MaxFloat64 *)
+  Hypothesis dmax_gt_eps : gtb dmax eps2 = true.
+  Hypothesis dmax_not_lt_self : ltb dmax dmax = false.
+  Hypothesis dmax_not_lt_perp : forall p a b,
+      In p path -> In a path -> In b path -> ltb dmax (perp p a b) = false.
+
+  Definition dval (d : D) : Prop :=
+    d = dmax \/ exists p a b, In p path /\ In a path /\ In b path /\ d = perp p a b.
+
+  (* for open paths: the end points are unflagged and their dsq is dmax;
+     every dsq value is dmax or a distance between points of the path *)
   Definition ends_inv (high : nat) (flags : list bool) (dsq : list D) (curr : nat) : Prop :=
     fl flags 0 = false /\ fl flags high = false /\
-    nth_error dsq 0 = Some dmax /\ nth_error dsq high = Some dmax.
+    nth_error dsq 0 = Some dmax /\ nth_error dsq high = Some dmax /\
+    forall k d, nth_error dsq k = Some d -> dval d.
 
-  Hypothesis dmax_gt_eps : gtb dmax eps2 = true.
-  Hypothesis dmax_not_lt : forall d, ltb dmax d = false.
+  Lemma dval_not_lt d : dval d -> ltb dmax d = false.
+  Proof.
+    intros [->|(p & a & b & Hp & Ha & Hb & ->)]; auto.
+  Qed.
 
-  Lemma ends_inv_step path high flags dsq curr x a b p2 nx dsq' :
+  Lemma nth_error_cond_upd_cases (g : bool) (l : list D) i v k d :
+    nth_error (if g then upd l i v else l) k = Some d -> d = v \/ nth_error l k = Some d.
+  Proof.
+    destruct g; [|auto]. destruct (Nat.eq_dec i k) as [->|Hne].
+    - destruct (Nat.lt_ge_cases k (length l)) as [Hlt|Hge].
+      + rewrite nth_error_upd_eq by assumption. intros E. inversion E. auto.
+      + intros E. assert (nth_error (upd l k v) k = None)
+          by (apply nth_error_None; rewrite length_upd; assumption). congruence.
+    - rewrite nth_error_upd_neq by assumption. auto.
+  Qed.
+
+  Lemma ends_inv_step high flags dsq curr x a b p2 nx dsq' :
     basic path high flags dsq curr -> ends_inv high flags dsq curr ->
     removal path false high flags dsq x a b p2 nx dsq' ->
     ends_inv high (upd flags x true) dsq' b.
   Proof.
-    intros HB (H0 & Hh & Hd0 & Hdh) HR.
+    intros HB (H0 & Hh & Hd0 & Hdh & Hval) HR.
     destruct (r_why _ _ _ _ _ _ _ _ _ _ _ HR) as (dx & Edx & Hwhy).
-    assert (Hx0 : x <> 0).
-    { intros ->. rewrite Hd0 in Edx. inversion Edx; subst dx.
-      destruct Hwhy as [Hw|[d Hw]]; [|rewrite dmax_not_lt in Hw]; congruence. }
-    assert (Hxh : x <> high).
-    { intros ->. rewrite Hdh in Edx. inversion Edx; subst dx.
-      destruct Hwhy as [Hw|[d Hw]]; [|rewrite dmax_not_lt in Hw]; congruence. }
+    assert (Hdx : dx <> dmax).
+    { intros ->. destruct Hwhy as [Hw|(k & d & Ek & Hw)]; [congruence|].
+      rewrite (dval_not_lt d (Hval k d Ek)) in Hw. discriminate. }
+    assert (Hx0 : x <> 0) by (intros ->; congruence).
+    assert (Hxh : x <> high) by (intros ->; congruence).
     destruct (r_dsq _ _ _ _ _ _ _ _ _ _ _ HR)
-      as (Pa & Pb & Pp2 & Pnx & _ & _ & _ & _ & ->).
+      as (Pa & Pb & Pp2 & Pnx & Ea & Eb & Ep2 & Enx & ->).
     cbv zeta. unfold ends_inv. rewrite !fl_upd_neq by congruence.
     split; [assumption|]. split; [assumption|].
-    split.
+    split; [|split].
     - rewrite !nth_error_cond_upd; [assumption| |];
         intros Hg; apply guard_true_iff in Hg; destruct Hg as [|[? ?]]; congruence.
     - rewrite !nth_error_cond_upd; [assumption| |];
         intros Hg; apply guard_true_iff in Hg; destruct Hg as [|[? ?]]; congruence.
+    - intros k d Ek.
+      apply nth_error_In in Ea, Eb, Ep2, Enx.
+      apply nth_error_cond_upd_cases in Ek. destruct Ek as [->|Ek].
+      { right. exists Pa, Pp2, Pb. auto. }
+      apply nth_error_cond_upd_cases in Ek. destruct Ek as [->|Ek].
+      { right. exists Pb, Pa, Pnx. auto. }
+      apply (Hval k d Ek).
   Qed.
 
-  Theorem simplify_flags_open_ends path flags :
+  Theorem simplify_flags_open_ends flags :
     4 <= length path -> simplify_flags path false = Some flags ->
     fl flags 0 = false /\ fl flags (length path - 1) = false.
   Proof.
     intros Hl. unfold Simplify.simplify_flags.
     destruct (Nat.ltb_spec (length path) 4); [lia|].
-    destruct (init_dsq_spec path false ltac:(lia)) as (dsq & E & Hdl & Hopen & _).
+    destruct (init_dsq_spec path false ltac:(lia)) as (dsq & E & Hdl & Hopen & _ & Hint).
     rewrite E. intros Hm. destruct (Hopen eq_refl) as [Hd0 Hdh].
+    assert (Hinit : ends_inv (length path - 1) (repeat false (length path)) dsq 0).
+    { unfold ends_inv. rewrite !fl_repeat_false by lia.
+      repeat (split; [auto; fail|]).
+      intros k d Ek.
+      assert (Hk : k < length path).
+      { rewrite <- Hdl. apply nth_error_Some. congruence. }
+      destruct (Nat.eq_dec k 0) as [->|Hk0]; [left; congruence|].
+      destruct (Nat.eq_dec k (length path - 1)) as [->|Hkh]; [left; congruence|].
+      destruct (nth_error_in_range path k ltac:(lia)) as [Pk Ekk].
+      destruct (nth_error_in_range path (k - 1) ltac:(lia)) as [Pp Ekp].
+      destruct (nth_error_in_range path (k + 1) ltac:(lia)) as [Pn Ekn].
+      rewrite (Hint k Pk Pp Pn ltac:(lia) Ekk Ekp Ekn) in Ek. inversion Ek.
+      right. exists Pk, Pp, Pn.
+      split; [eapply nth_error_In; eassumption|].
+      split; [eapply nth_error_In; eassumption|].
+      split; [eapply nth_error_In; eassumption|reflexivity]. }
     destruct (main_loop_inv path false (length path - 1) (ends_inv (length path - 1))
                 (fun flags dsq curr x a b p2 nx dsq' HB HI HR =>
-                   ends_inv_step path _ flags dsq curr x a b p2 nx dsq' HB HI HR)
-                _ _ _ _ _ (init_basic path dsq ltac:(lia) Hdl)
-                ltac:(unfold ends_inv; rewrite !fl_repeat_false by lia; auto) Hm)
+                   ends_inv_step _ flags dsq curr x a b p2 nx dsq' HB HI HR)
+                _ _ _ _ _ (init_basic path dsq ltac:(lia) Hdl) Hinit Hm)
       as (dsqF & currF & _ & (H0 & Hh & _) & _).
     auto.
   Qed.
+
+  Theorem simplify_open_ends r :
+    4 <= length path -> simplify path false = Some r ->
+    hd_error r = hd_error path /\ forall d, last r d = last path d.
+  Proof.
+    intros Hl H. destruct (simplify_select path false r H Hl) as (flags & Ef & ->).
+    destruct (simplify_flags_open_ends flags Hl Ef) as [H0 Hh].
+    pose proof (simplify_flags_length path false flags Ef) as Hlen.
+    split; [apply select_hd; assumption|].
+    intros d. apply select_last; assumption.
+  Qed.
   End OpenEnds.
+
+  (* ================================================================ *)
+  (* 7. (b) the result is a subsequence of the input                   *)
+  (* ================================================================ *)
+  Theorem simplify_subseq path c r : simplify path c = Some r -> subseq r path.
+  Proof.
+    unfold Simplify.simplify.
+    destruct (Nat.ltb_spec (length path) 4).
+    - intros E. inversion E. apply subseq_refl.
+    - destruct (simplify_flags path c); [|discriminate].
+      intros E. inversion E. apply select_subseq.
+  Qed.
+
+  (* ================================================================ *)
+  (* 8. (e) the post-condition                                         *)
+  (* ================================================================ *)
+
+  (* the lazily maintained table: for every unflagged vertex i whose dsq cell
+     is live (closed path, or interior vertex of an open path), dsq[i] is the
+     distance of i from the line through its unflagged neighbours p (before)
+     and nx (after).  The line points are passed in the order (p, nx) by every
+     recomputation in the loop and by the initialisation of all cells except
+     dsq[high] of a closed path, which is initialised with the order (nx, p):
+     hence the disjunction. *)
+  Definition dsq_inv (path : list P) (c : bool) (high : nat)
+             (flags : list bool) (dsq : list D) (curr : nat) : Prop :=
+    forall i p nx Pi Pp Pn,
+      fl flags i = false -> fl flags p = false -> fl flags nx = false ->
+      gap flags p i -> gap flags i nx -> guard c high i = true ->
+      nth_error path i = Some Pi -> nth_error path p = Some Pp ->
+      nth_error path nx = Some Pn ->
+      nth_error dsq i = Some (perp Pi Pp Pn) \/ nth_error dsq i = Some (perp Pi Pn Pp).
+
+  Lemma dsq_inv_step path c high flags dsq curr x a b p2 nx dsq' :
+    basic path high flags dsq curr -> dsq_inv path c high flags dsq curr ->
+    removal path c high flags dsq x a b p2 nx dsq' ->
+    dsq_inv path c high (upd flags x true) dsq' b.
+  Proof.
+    intros HB HI HR i p n' Pi Pp Pn Hi' Hp' Hn' Hgp Hgn Hg Ei Ep En.
+    destruct (fl_upd_false _ _ _ Hi') as [Hix Hi].
+    destruct (fl_upd_false _ _ _ Hp') as [Hpx Hp].
+    destruct (fl_upd_false _ _ _ Hn') as [Hnx' Hn].
+    pose proof HB as [Hfl Hdl Hpl _ _].
+    pose proof HR as [Hx Ha Hb Hp2 Hax Hbx Hab Hgax Hgxb Hgpa Hnx Hgbn _
+                        (Pa & Pb & Pp2 & Pnx & Ea & Eb & Ep2 & Enx & ->)].
+    pose proof (gap_join flags a x b Hgax Hgxb Ha Hb Hax Hbx) as Hjoin.
+    assert (Hp2x : p2 <> x).
+    { intros ->. rewrite (gap_two flags a x Hgax Hgpa b ltac:(congruence) Hbx) in Hb.
+      discriminate. }
+    assert (Ha' : fl (upd flags x true) a = false) by (rewrite fl_upd_neq; assumption).
+    assert (Hb' : fl (upd flags x true) b = false) by (rewrite fl_upd_neq; assumption).
+    assert (Hp2' : fl (upd flags x true) p2 = false) by (rewrite fl_upd_neq; assumption).
+    pose proof (fl_false_lt _ _ Ha) as Hal. pose proof (fl_false_lt _ _ Hb) as Hbl.
+    cbv zeta.
+    destruct (Nat.eq_dec i b) as [->|Hib].
+    - assert (p = a) by (apply (gap_unique_l (upd flags x true) b); assumption).
+      assert (n' = nx) by (apply (gap_unique_r (upd flags x true) b); assumption).
+      subst p n'. left. rewrite Hg.
+      rewrite nth_error_cond_upd by (intros _; assumption).
+      rewrite nth_error_upd_eq by lia. congruence.
+    - destruct (Nat.eq_dec i a) as [->|Hia].
+      + assert (n' = b) by (apply (gap_unique_r (upd flags x true) a); assumption).
+        assert (p = p2).
+        { apply (gap_unique_l (upd flags x true) a); try assumption.
+          apply gap_mono. assumption. }
+        subst p n'. left. rewrite Hg.
+        rewrite nth_error_upd_eq
+          by (destruct (guard c high b); rewrite ?length_upd; lia).
+        congruence.
+      + rewrite !nth_error_cond_upd by congruence.
+        apply (HI i p n'); try assumption.
+        * apply (gap_restrict flags a x b p i); auto.
+        * apply (gap_restrict flags a x b i n'); auto.
+  Qed.
+
+  Lemma gap_clear_prev flags n p i :
+    (forall k, k < n -> fl flags k = false) -> p < n -> i < n -> gap flags p i ->
+    p = if i =? 0 then n - 1 else i - 1.
+  Proof.
+    intros Hall Hp Hi Hg. destruct (Nat.eqb_spec i 0) as [->|Hi0].
+    - destruct (Nat.eq_dec p (n - 1)) as [|Hne]; [assumption|exfalso].
+      assert (H : between p 0 (n - 1)) by (unfold between; lia).
+      apply Hg in H. rewrite Hall in H by lia. discriminate.
+    - destruct (Nat.eq_dec p (i - 1)) as [|Hne]; [assumption|exfalso].
+      assert (H : between p i (i - 1)) by (unfold between; lia).
+      apply Hg in H. rewrite Hall in H by lia. discriminate.
+  Qed.
+
+  Lemma gap_clear_next flags n i nx :
+    (forall k, k < n -> fl flags k = false) -> nx < n -> i < n -> gap flags i nx ->
+    nx = if i =? n - 1 then 0 else i + 1.
+  Proof.
+    intros Hall Hn Hi Hg. destruct (Nat.eqb_spec i (n - 1)) as [Hin|Hin].
+    - destruct (Nat.eq_dec nx 0) as [|Hne]; [assumption|exfalso].
+      assert (H : between i nx 0) by (unfold between; lia).
+      apply Hg in H. rewrite Hall in H by lia. discriminate.
+    - destruct (Nat.eq_dec nx (i + 1)) as [|Hne]; [assumption|exfalso].
+      assert (H : between i nx (i + 1)) by (unfold between; lia).
+      apply Hg in H. rewrite Hall in H by lia. discriminate.
+  Qed.
+
+  Lemma dsq_inv_init path c dsq :
+    4 <= length path -> init_dsq path c = Some dsq ->
+    dsq_inv path c (length path - 1) (repeat false (length path)) dsq 0.
+  Proof.
+    intros Hl E.
+    destruct (init_dsq_spec path c ltac:(lia)) as (dsq0 & E0 & Hdl & _ & Hclosed & Hint).
+    rewrite E in E0. inversion E0; subst dsq0. clear E0.
+    set (n := length path) in *.
+    intros i p nx Pi Pp Pn Hi Hp Hnx Hgp Hgn Hg Ei Ep En.
+    apply fl_false_lt in Hi, Hp, Hnx. rewrite repeat_length in Hi, Hp, Hnx.
+    pose proof (gap_clear_prev _ n p i (fl_repeat_false n) Hp Hi Hgp) as Hpe.
+    pose proof (gap_clear_next _ n i nx (fl_repeat_false n) Hnx Hi Hgn) as Hne.
+    destruct (Nat.eq_dec i 0) as [->|Hi0].
+    - apply guard_true_iff in Hg. destruct Hg as [->|[? _]]; [|congruence].
+      cbn [Nat.eqb] in Hpe. destruct (Nat.eqb_spec 0 (n - 1)); [lia|]. subst p nx.
+      destruct (nth_error_in_range path (n - 1 - 1) ltac:(lia)) as [Ph1 Eh1].
+      left. apply (Hclosed eq_refl Pi Pp Pn Ph1); assumption.
+    - destruct (Nat.eqb_spec i 0); [contradiction|].
+      destruct (Nat.eqb_spec i (n - 1)) as [->|Hih].
+      + apply guard_true_iff in Hg. destruct Hg as [->|[_ ?]]; [|congruence].
+        subst p nx.
+        destruct (nth_error_in_range path 1 ltac:(lia)) as [P1 E1].
+        right. apply (Hclosed eq_refl Pn Pi P1 Pp); assumption.
+      + subst p nx. left. apply Hint; try assumption. lia.
+  Qed.
+
+  (* Main correctness statement, on the final flags.  [fl flags i = false]
+     says vertex i is retained; [gap flags p i] with p retained says p is the
+     nearest retained vertex before i (cyclically), [gap flags i nx] with nx
+     retained says nx is the nearest retained vertex after i. *)
+  Theorem simplify_post path c flags :
+    4 <= length path -> simplify_flags path c = Some flags ->
+    (exists u v, forall k, k <> u -> k <> v -> fl flags k = true) \/
+    (forall i p nx Pi Pp Pn,
+        fl flags i = false -> fl flags p = false -> fl flags nx = false ->
+        gap flags p i -> gap flags i nx ->
+        (c = true \/ (i <> 0 /\ i <> length path - 1)) ->
+        nth_error path i = Some Pi -> nth_error path p = Some Pp ->
+        nth_error path nx = Some Pn ->
+        gtb (perp Pi Pp Pn) eps2 = true \/ gtb (perp Pi Pn Pp) eps2 = true).
+  Proof.
+    intros Hl. unfold Simplify.simplify_flags.
+    destruct (Nat.ltb_spec (length path) 4); [lia|].
+    destruct (init_dsq_spec path c ltac:(lia)) as (dsq & E & Hdl & _).
+    rewrite E. intros Hm.
+    destruct (main_loop_inv path c (length path - 1) (dsq_inv path c (length path - 1))
+                (fun flags dsq curr x a b p2 nx dsq' HB HI HR =>
+                   dsq_inv_step path c _ flags dsq curr x a b p2 nx dsq' HB HI HR)
+                _ _ _ _ _ (init_basic path dsq ltac:(lia) Hdl)
+                (dsq_inv_init path c dsq Hl E) Hm)
+      as (dsqF & currF & _ & HI & [Hfar|Htwo]).
+    - right. intros i p nx Pi Pp Pn Hi Hp Hnx Hgp Hgn Hg Ei Ep En.
+      apply guard_true_iff in Hg.
+      destruct (Hfar i Hi) as (d & Ed & Egt).
+      destruct (HI i p nx Pi Pp Pn Hi Hp Hnx Hgp Hgn Hg Ei Ep En) as [Hd|Hd];
+        rewrite Hd in Ed; inversion Ed; subst d; auto.
+    - left. assumption.
+  Qed.
+
+  (* the same statement on the result path *)
+  Theorem simplify_post_result path c r :
+    4 <= length path -> simplify path c = Some r -> 3 <= length r ->
+    exists flags,
+      simplify_flags path c = Some flags /\ r = select flags path /\
+      length flags = length path /\
+      forall i p nx Pi Pp Pn,
+        fl flags i = false -> fl flags p = false -> fl flags nx = false ->
+        gap flags p i -> gap flags i nx ->
+        (c = true \/ (i <> 0 /\ i <> length path - 1)) ->
+        nth_error path i = Some Pi -> nth_error path p = Some Pp ->
+        nth_error path nx = Some Pn ->
+        gtb (perp Pi Pp Pn) eps2 = true \/ gtb (perp Pi Pn Pp) eps2 = true.
+  Proof.
+    intros Hl H Hr. destruct (simplify_select path c r H Hl) as (flags & Ef & ->).
+    exists flags. split; [assumption|]. split; [reflexivity|].
+    split; [apply (simplify_flags_length path c); assumption|].
+    destruct (simplify_post path c flags Hl Ef) as [(u & v & Huv)|Hpost]; [|assumption].
+    pose proof (select_length_le2 flags path u v Huv). lia.
+  Qed.
+
+  (* with a perp that is symmetric in its two line points (true of the exact
+     squared distance) the disjunction disappears *)
+  Corollary simplify_post_sym path c r :
+    (forall p a b, perp p a b = perp p b a) ->
+    4 <= length path -> simplify path c = Some r -> 3 <= length r ->
+    exists flags,
+      simplify_flags path c = Some flags /\ r = select flags path /\
+      length flags = length path /\
+      forall i p nx Pi Pp Pn,
+        fl flags i = false -> fl flags p = false -> fl flags nx = false ->
+        gap flags p i -> gap flags i nx ->
+        (c = true \/ (i <> 0 /\ i <> length path - 1)) ->
+        nth_error path i = Some Pi -> nth_error path p = Some Pp ->
+        nth_error path nx = Some Pn ->
+        gtb (perp Pi Pp Pn) eps2 = true.
+  Proof.
+    intros Hsym Hl H Hr.
+    destruct (simplify_post_result path c r Hl H Hr) as (flags & Ef & Er & Hlen & Hpost).
+    exists flags. repeat (split; [assumption|]).
+    intros i p nx Pi Pp Pn Hi Hp Hnx Hgp Hgn Hg Ei Ep En.
+    destruct (Hpost i p nx Pi Pp Pn Hi Hp Hnx Hgp Hgn Hg Ei Ep En) as [Hd|Hd];
+      [assumption|]. rewrite Hsym. assumption.
+  Qed.
 End Proofs.
+
+(* ================================================================== *)
+(* 9. getNext / getPrior compute the neighbours used in the statements *)
+(* ================================================================== *)
+Lemma getNext_of_gap flags high i nx :
+  length flags = S high -> i <= high -> fl flags nx = false -> gap flags i nx ->
+  getNext flags high i = Some nx.
+Proof.
+  intros Hlen Hi Hnx Hg.
+  destruct (getNext_spec flags high i Hlen Hi (ex_intro _ nx Hnx)) as (c & E & Hc & Hgc).
+  rewrite E. f_equal. apply (gap_unique_r flags i); assumption.
+Qed.
+
+Lemma getPrior_of_gap flags high i p :
+  length flags = S high -> i <= high -> fl flags p = false -> gap flags p i ->
+  getPrior flags high i = Some p.
+Proof.
+  intros Hlen Hi Hp Hg.
+  destruct (getPrior_spec flags high i Hlen Hi (ex_intro _ p Hp)) as (c & E & Hc & Hgc).
+  rewrite E. f_equal. apply (gap_unique_l flags i); assumption.
+Qed.
+
+(* ================================================================== *)
+(* 10. the exact rational instance                                     *)
+(* ================================================================== *)
+From Coq Require Import ZArith QArith.
+From Clip Require Import Model.Arith.
+Close Scope Q_scope.
+Close Scope Z_scope.
+Open Scope nat_scope.
+
+Lemma perp_exact_sym p a b : perp_exact p a b = perp_exact p b a.
+Proof.
+  unfold perp_exact. cbv zeta.
+  destruct (Z.eqb_spec (px b - px a) 0), (Z.eqb_spec (py b - py a) 0),
+           (Z.eqb_spec (px a - px b) 0), (Z.eqb_spec (py a - py b) 0);
+    cbn [andb]; try reflexivity; try lia.
+  all: f_equal; [ring | f_equal; ring].
+Qed.
+
+Theorem simplify_exact_post (eps2 : Q) pth c r :
+  4 <= length pth -> simplify_exact eps2 pth c = Some r -> 3 <= length r ->
+  exists flags,
+    simplify_exact_flags eps2 pth c = Some flags /\ r = select flags pth /\
+    length flags = length pth /\
+    forall i p nx Pi Pp Pn,
+      fl flags i = false -> fl flags p = false -> fl flags nx = false ->
+      gap flags p i -> gap flags i nx ->
+      (c = true \/ (i <> 0 /\ i <> length pth - 1)) ->
+      nth_error pth i = Some Pi -> nth_error pth p = Some Pp ->
+      nth_error pth nx = Some Pn ->
+      Qgtb (perp_exact Pi Pp Pn) eps2 = true.
+Proof.
+  apply (simplify_post_sym pt Q perp_exact dmax_exact Qgtb Qltb eps2 pth c r perp_exact_sym).
+Qed.
+
+(* ================================================================== *)
+Print Assumptions simplify_short.
+Print Assumptions simplify_subseq.
+Print Assumptions simplify_total.
+Print Assumptions simplify_flags_total.
+Print Assumptions simplify_open_ends.
+Print Assumptions simplify_post.
+Print Assumptions simplify_post_result.
+Print Assumptions simplify_post_sym.
+Print Assumptions simplify_exact_post.
